@@ -230,7 +230,7 @@ def build_cases(chk) -> list[dict]:
             kinds_sets=[["compute"]], cli_kinds=["compute"], cli_lang="c")
 
     # 1. format sweep
-    cap, sample = (32, 16) if quick else (2400, 500)
+    cap, sample = (32, 16) if quick else (2400, 400)
     for t in TEMPLATES:
         tensors = tensors_in(t)
         single_operand = len(tensors) <= 2
@@ -240,7 +240,7 @@ def build_cases(chk) -> list[dict]:
         else:
             combos = format_combos(chk, tensors, cap, sample)
         for n, combo in enumerate(combos):
-            wide = (not quick) and (n % 4 == 0)
+            wide = (not quick) and (n % 5 == 0)
             add(t, [(nm, f) for (nm, _), f in zip(tensors, combo)], origin="sweep",
                 kinds_sets=kind_sets(chk.tier, chk.rng, wide),
                 tm_cffi=(not quick) and n % 400 == 7)   # a few real cffi builds (the published header)
@@ -261,8 +261,8 @@ def build_cases(chk) -> list[dict]:
     if quick:
         singles = chk.rng.sample(singles, 40)
         pairs = chk.rng.sample(pairs, 20)
-    elif len(pairs) > 500:
-        pairs = chk.rng.sample(pairs, 500)
+    elif len(pairs) > 300:
+        pairs = chk.rng.sample(pairs, 300)
     for tmpl, fm, sub in singles + pairs:
         names = dict(IDENT_DEFAULT)
         names.update(sub)
